@@ -1,10 +1,24 @@
-/- driver handler for component Sat: requests whose first token belongs to it -/
+/-
+  driver handler: requests of the verdict-level properties (C02, C09, C10, C11).
+    embeds <L'> <L>        does logic L (stronger) extend L' (weaker) at table level (documented tables)
+                           answer: ok | bad <failing parts …>
+-/
 import Ptx.Wire
+import Ptx.Sem.Extends
+import Ptx.Sem.Sem
+import Ptx.Gen.All
 namespace Ptx.Drv.Sat
+open Ptx
 
 /-- `none` = not my request -/
 def handle (ts : List String) : Option String :=
   match ts with
+  | ["embeds", l', l] =>
+      match Gen.byName l', Gen.byName l with
+      | some L', some L =>
+          if L'.sem.embedsB L.sem then some "ok"
+          else some ("bad " ++ " ".intercalate (L'.sem.embedsBad L.sem))
+      | _, _ => some "err:unknown-logic"
   | _ => none
 
 end Ptx.Drv.Sat
